@@ -7,6 +7,8 @@ func propTiers(id string) (tierConf, tierConf) {
 		return tierConf{Runs: 24000, BudgetS: 60, ShrinkS: 40, DetRuns: 24}, tierConf{Runs: 1_000_000, BudgetS: 900, ShrinkS: 120, DetRuns: 100}
 	case "C15":
 		return tierConf{Runs: 400000, BudgetS: 60, ShrinkS: 30, DetRuns: 32}, tierConf{Runs: 20_000_000, BudgetS: 900, ShrinkS: 120, DetRuns: 200}
+	case "C16":
+		return tierConf{Runs: 40000, BudgetS: 60, ShrinkS: 30, DetRuns: 32}, tierConf{Runs: 5_000_000, BudgetS: 900, ShrinkS: 120, DetRuns: 200}
 	case "C17":
 		return tierConf{Runs: 100000, BudgetS: 60, ShrinkS: 30, DetRuns: 24}, tierConf{Runs: 1_000_000, BudgetS: 900, ShrinkS: 120, DetRuns: 100}
 	case "C03":
